@@ -79,19 +79,27 @@ def setValue [Scalar α] (n : Name) : Arg α → Except CErr (Val α)
   | .none => .error .dce     -- not reachable: handled by the caller
   | .fals => .error .dce     -- not reachable: handled by the caller
 
+/-- where a new value for `n` would go: the slot decision of `_set_constraint` -/
+inductive Slot | free | replace | refuse deriving DecidableEq, Repr
+
+def slot (s : CState α) (n : Name) : Slot :=
+  let k := s.countCat n.cat
+  if s.active n then .free
+  else if k < maxCat n.cat && s.count < 3 then .free
+  else if k > 1 then .refuse       -- ambiguous: more than one candidate to replace
+  else if k = 0 then .refuse       -- nothing of this category to replace
+  else .replace                    -- exactly one constraint of this category: it is replaced
+
 /-- `_set_constraint` (after the validate-before-deactivate repair) -/
 def set [Scalar α] (s : CState α) (n : Name) (a : Arg α) : CState α × Except CErr Unit :=
   match a with
   | .none | .fals => (s.upd n none, .ok ())
   | a =>
-    let k := s.countCat n.cat
-    if s.active n then
+    match s.slot n with
+    | .refuse => (s, .error .dce)
+    | .free =>
       match setValue n a with | .ok v => (s.upd n (some v), .ok ()) | .error e => (s, .error e)
-    else if k < maxCat n.cat && s.count < 3 then
-      match setValue n a with | .ok v => (s.upd n (some v), .ok ()) | .error e => (s, .error e)
-    else if k > 1 then (s, .error .dce)
-    else if k = 0 then (s, .error .dce)
-    else
+    | .replace =>
       match setValue n a with
       | .ok v => ((clearCat s n.cat).upd n (some v), .ok ())
       | .error e => (s, .error e)
